@@ -16,7 +16,8 @@ import (
 
 func init() {
 	fw.Register(&fw.Prop{
-		ID: "C18",
+		ID:       "C18",
+		Parallel: 4, // cases are judged on 4 goroutines per shard: the library functions are stateless, shared state inside them shows up as wrong verdicts
 		Rule: "prove: (seed, alpha) with alpha of every length 0..700 (thorough 0..2200) and around 2^10..2^13, proof bytes compared with the RFC 9381 model, then Verify/ProofToHash/Proof.Hash/SetBytes/MarshalBinary agreement; verify: (key, alpha, proof) triples judged two-sidedly against the model: honest, every single-bit flip of honest proofs, Gamma+T for the 8 torsion points, non-canonical and undecodable Gamma, s+L / s in {L-1, L, L+1}, random 80-byte strings, lengths 0..100, wrong keys, every small-order key encoding (canonical and not), all 38 y>=p key encodings, undecodable keys, and forged proofs that would verify for small-order keys if validate_key were dropped; decode: SetBytes/UnmarshalBinary/ProofToHash succeed iff the model decodes, and re-encode to the input; unique: all accepted proofs for one (key, alpha) give one hash. " +
 			"Non-trivial: distinct cases outside the purely random classes.",
 		Assumptions: []string{"SHA-512 of the Go standard library", "math/big", "the RFC 9381 model in harness/oracle/ecvrf (self-tested against the three RFC 9381 ECVRF-EDWARDS25519-SHA512-TAI examples)"},
@@ -36,6 +37,8 @@ func init() {
 		Required: []string{"prove ok", "verify model=accept impl=accept", "verify model=reject impl=reject", "decode model=ok impl=ok", "decode model=fail impl=fail", "unique checked"},
 	})
 }
+
+var kept fw.Keeper
 
 func yn(b bool, y, n string) string {
 	if b {
@@ -79,6 +82,10 @@ func judgeProve(seed, alpha []byte, o *fw.Obs) {
 	}) {
 		return
 	}
+	kept.Keep("proof bytes returned by Proof.Bytes", pi)
+	kept.Keep("hash returned by Verify", beta)
+	kept.Keep("hash returned by ProofToHash", beta2)
+	defer kept.Check(o)
 	if !bytes.Equal(priv[32:], mpub) {
 		o.Fail("key", "public key %x differs from RFC 8032 key %x", []byte(priv[32:]), mpub)
 		return
